@@ -154,7 +154,7 @@ EXTRA = {
     "C15": "Also: the YAML decoder is handed the entry point's profile text unchanged (O5); operand lists are only permuted, never filtered (O6); prefix names are not validated more strictly than the grammar (O7). The placeholder pattern finds every prefix name the grammar admits (O7); no loop of the profile parser that fills a list stops early (O8); scalar test before a node's text is read (O9). YAML aliases are rejected (O10). Constructors store the operand list they are given and no operand is conditional, on values (O6); no in-place extension of shared operand lists (O11). Every prefix and name the grammar admits is accepted by the IRI expander (O12). A boolean flag accumulated over the operands is never overwritten with what the current operand says (O13).",
     "C16": "Also: the generated parser is handed the caller's string unchanged (X7); the tree builder keeps every operand (X8); no parse result is cached across calls (X9). The generated interpreter gives back consumed input when a sequence, literal or predicate fails (X10). RuneError is only tested together with the decoder's width (X11); no expression budget by default (X12). The runtime has no other limit: no explicit panic under an ordering comparison of a depth, length or count (X13). The runtime folds the case of the input only for expressions marked ignoreCase (X14).",
     "C17": "Also: explicit panics never carry nil (Z7); a deferred close of the event channel is the only close (Z8); locks are released by defer. Negate of and/or returns a non-negated rule, so the two generators cannot recurse into each other for ever (Z9). No compilation writes into the shared default prefix table (Z10). No recursion whose calls hand on only unchanged parameters and looked-up texts (Z11).",
-    "C18": "Also: every text handed to the library is a file's content as read (W5); a path that writes to stderr ends with a non-zero exit (W7). Nothing in reach of the library writes to standard output or error (W8); accepted argument counts are exactly the counts with an output branch (W9). What the library returns does not depend on profiles compiled earlier (W10); no map iteration order reaches what the commands print (W11). The public entry points hand the caller's texts to the validator unchanged (W12). Every command function is reached by the dispatch in main (W13).",
+    "C18": "Also: every text handed to the library is a file's content as read (W5); a path that writes to stderr ends with a non-zero exit (W7). Nothing in reach of the library writes to standard output or error (W8); accepted argument counts are exactly the counts with an output branch (W9). What the library returns does not depend on profiles compiled earlier (W10); no map iteration order reaches what the commands print (W11). The public entry points hand the caller's texts to the validator unchanged (W12). Every command function is reached by the dispatch in main (W13). A file opened for writing without O_CREATE is opened only on the 'exists' outcome of an existence test of the same path, polarity computed on SSA (W14: the 'absent' prior state).",
 }
 
 
